@@ -31,6 +31,8 @@ func c11(c *Ctx) {
 	r.Rule("C11.mutex-guarded", "every load and store of Conn.writeErr outside constructors happens between writeErrMu.Lock and Unlock of the same function")
 	r.Rule("C11.check-then-act", "the sticky write error is read inside the critical section it protects: a writer that waited for the connection re-checks it after acquiring Conn.mu, so a frame is never written after a concurrent close frame or after a frame another goroutine left half-written (same rule as C09.protocol)")
 	c.borrow(c09, map[string]string{"C09.protocol": "C11.check-then-act"})
+	r.Rule("C11.deadline-per-frame", "every frame is written under its own caller's deadline: the critical section sets the transport write deadline (also the zero value, which clears one a bounded WriteControl left armed) before writing (same rule as C10.deadline)")
+	c.borrow(c10, map[string]string{"C10.deadline": "C11.deadline-per-frame"})
 	r.Rule("C11.atomic", "every critical section of Conn.mu performs exactly one transport write per path; in write it covers buf0 and, when present, buf1; section functions never call section functions; flushFrame and WritePreparedMessage call write at most once per invocation")
 	r.Rule("C11.no-blocking-under-mutex", "between Lock and Unlock of writeErrMu / PreparedMessage.mu there is no channel operation, no transport call and no handler call")
 	r.Rule("C11.timeout-paths", "WriteControl: paths returning errWriteTimeout have not acquired Conn.mu, register no release, perform no transport operation and do not call writeFatal; the blocking select consists of the receive on Conn.mu and a timer created from time.Until(deadline); a zero deadline takes the plain receive")
